@@ -1,6 +1,8 @@
 """C15 - decorated generators: own context, transparent (context probes + differential vs the undecorated generator)."""
 
+import gc
 import random
+import sys
 import threading
 import warnings
 
@@ -25,15 +27,55 @@ RULE = ("generated generator bodies (actions spanning yields, logging, try/excep
         "since); in the driver after every step it IS what it was before. Differential: the same script on the UNDECORATED generator "
         "must give the same trace of yielded values, received values, thrown-in and raised exception objects, close() behaviour and "
         "StopIteration.value; part of the yielded values are exception instances passed as ordinary data (StopIteration with and without a value, GeneratorExit, KeyError). Tape: every in-generator action/message sits under its shadow parent. non-trivial = script with a "
-        "context switch between resumptions of a generator holding an open action, or a throw/close; distinct by (bodies, script)")
+        "context switch between resumptions of a generator holding an open action, or a throw/close; distinct by (bodies, script). "
+        "Part 'gccycle': 1-3 decorated generators (0-3 own actions open around the suspension point, early yields, nested decorated sub-generators via "
+        "`yield from` or by manual iteration that is never closed, clean-up code in finally / except GeneratorExit that probes current_action(), logs, may "
+        "start an action of its own, may answer GeneratorExit with a return, may raise) are ABANDONED while suspended and are reachable only through a "
+        "reference cycle (self-referring holder object / list / dict, a pair of objects, a closure cycle, a holder whose __del__ closes the generator, the "
+        "generator's own argument, the generator sent to itself, generators sent to each other; cycle members allocated before, between or after the "
+        "generator's creation and first resumption, optionally promoted to older collector generations first); automatic collection is off, the last outside "
+        "references are dropped under some driver action (or none) and gc.collect(0|1|2) is called under a driver action, under none, on a fresh thread or from "
+        "inside another decorated generator's body, then a full collection. Oracle: every probe in the clean-up code IS the top of the generator's own shadow "
+        "stack, everything it logs sits under its shadow parent, every started action has exactly one end message under its own parent after the final "
+        "collection, no message without a planned origin exists, the collector's current_action() after gc.collect() IS what it was before, and the "
+        "per-generator event sequences and the exceptions reported through sys.unraisablehook equal those of the same scenario with UNDECORATED generators; "
+        "objects that existed before the case are set aside with gc.freeze(), collections of still-referenced generators happen only after their last "
+        "resumption (the sub-class with a young-generation collection between creation and a later resumption is kept behind ENABLE_GCCYCLE_PROMOTE_EARLY = "
+        "False: the unchanged tree fails it)")
 ASSUMPTIONS = ["Twisted is absent: eliot.twisted.inline_callbacks = inlineCallbacks(eliot_friendly_generator_function(f)); the wrapper is the monitored object",
                "'started' means the first resumption of the generator"]
 BATCH = 100
+# part 'gccycle': decorated generators abandoned while suspended and finalised by the cyclic garbage collector under a foreign action
+ENABLE_GCCYCLE = True
+GC_BATCH = 50
+# Sub-class of part 'gccycle', DISABLED because the unchanged tree violates the property on it (reported, not hidden): a collection of the
+# young generation (explicit here, any automatic one in an application) runs between the creation of the decorated generator object and a
+# later resumption, so that the generator object the application holds is in an older collector generation than what its resumptions
+# allocate afterwards (the first resumption allocates the generator of the decorated function itself). When such a generator is abandoned
+# in a reference cycle, a full gc.collect() (CPython 3.12 examines the youngest generation's objects first) finalises the younger object
+# directly: the body's clean-up code then runs in the COLLECTOR's context - current_action() there is the collector's action, its
+# messages land in the collector's action, the `with start_action(...)` around the yield fails to exit ("Exception ignored in: <generator
+# ...> ValueError: <Token ...> was created in a different Context") and the generator's own action never gets an end message. Minimal
+# input: it = g(); gc.collect(0); next(it) under X; h.me = h; h.g = it; under Y: del it, h; gc.collect().
+# With the constant False, collections of still-referenced generators happen only after their last resumption.
+ENABLE_GCCYCLE_PROMOTE_EARLY = False
 
 
 def plan(tier, seed):
     n = 30000 if tier == "quick" else 300000
-    return [{"seed": seed, "lo": i, "hi": min(n, i + BATCH)} for i in range(0, n, BATCH)]
+    specs = [{"seed": seed, "lo": i, "hi": min(n, i + BATCH)} for i in range(0, n, BATCH)]
+    if ENABLE_GCCYCLE:
+        m = 3000 if tier == "quick" else 30000
+        gcs = [{"part": "gccycle", "seed": seed, "lo": i, "hi": min(m, i + GC_BATCH)} for i in range(0, m, GC_BATCH)]
+        # spread over the plan so that every worker gets some
+        step = max(1, len(specs) // max(1, len(gcs)))
+        out = []
+        for j, sp in enumerate(specs):
+            out.append(sp)
+            if j % step == 0 and gcs:
+                out.append(gcs.pop(0))
+        specs = out + gcs
+    return specs
 
 
 # --------------------------------------------------------------------------- body generation
@@ -539,8 +581,628 @@ def one(seed, i, res):
         res["violations"].append({"msg": problems[0], "mech": mech, "detail": {"case": i, "problems": problems[:6], "bodies": bodies, "script": script}})
 
 
+# --------------------------------------------------------------------------- part 'gccycle'
+#
+# Decorated generators that are abandoned while suspended and whose only references are part of a reference cycle: their clean-up code
+# (finally / except GeneratorExit / __exit__ of their own with-blocks) is run by the cyclic garbage collector, at a moment and under an
+# action chosen by the case. The bodies here are NOT the ones of the main part (which closes every nested generator deterministically,
+# DESIGN 10.3): nothing is closed by hand, automatic collection is off, every collection is an explicit gc.collect().
+
+GC_CYCLES = ["holder_self", "list_self", "dict_self", "pair", "closure", "holder_del", "arg_box", "sent_self", "ring"]
+
+
+class _Holder(object):
+    pass
+
+
+class _ClosingHolder(object):
+    """An owner that closes its generator when it is finalised itself."""
+
+    def __del__(self):
+        g = self.__dict__.get("gen")
+        if g is not None:
+            g.close()
+
+
+class GcMon(Mon):
+    def _init(self, decorated):
+        Mon._init(self, decorated)
+        self.keep = []  # the action objects (never generators or frames): ids stay unique, identities can be compared
+        self.phase = "run"
+        self.collector_action = None
+        self.cleanups = []  # (label, phase, inside own action?, expected is not the collector's action?, nested?)
+        self.runtime_nid = 100000
+        self.drv_msgs = {}  # dnid -> driver context index or None
+        self.collector_probes = 0
+
+    def note_action(self, a, nid, parent):
+        self.keep.append(a)
+        self.action_nid[id(a)] = nid
+        self.parent_of[nid] = self.nid_of(parent)
+
+    def log(self, nid, expected):
+        self.parent_of[nid] = self.nid_of(expected)
+        if self.decorated:
+            log_message(message_type="gen:msg", nid=nid)
+
+    def fresh(self):
+        self.runtime_nid += 1
+        return self.runtime_nid
+
+    def drvlog(self, where):
+        n = self.fresh()
+        self.drv_msgs[n] = where
+        log_message(message_type="drv:msg", dnid=n)
+
+
+def gc_body_spec(rng, ids, depth=0):
+    nlev = rng.choice([0, 1, 1, 2, 3]) if depth == 0 else rng.choice([0, 1, 2])
+    levels = []
+    for _ in range(nlev):
+        levels.append({"nid": ids(), "cleanup": rng.choice(["finally", "finally", "except_ge", "both", "none"]), "log": ids(), "log2": ids(),
+                       "cl_act": ids() if rng.random() < 0.3 else None, "cl_act_log": ids(), "pre_yield": rng.random() < 0.3})
+    outer = None
+    if nlev == 0 or rng.random() < 0.5:
+        outer = {"how": rng.choice(["finally", "finally", "except_ge", "except_ge_return"]), "log": ids(),
+                 "cl_act": ids() if rng.random() < 0.3 else None, "cl_act_log": ids()}
+    sp = {"levels": levels, "outer": outer, "early": rng.choice([0, 0, 1, 2]), "nested": None, "raises": False}
+    if depth < 2 and rng.random() < 0.3:
+        sp["nested"] = {"how": rng.choice(["yield_from", "iterate"]), "spec": gc_body_spec(rng, ids, depth + 1)}
+    elif depth == 0 and rng.random() < 0.08:
+        sp["raises"] = True  # the clean-up code itself fails: reported through sys.unraisablehook, with and without the decorator
+    return sp
+
+
+def gc_make_genfunc(sp, mon, label, decorated, nested=False):
+    def cleanup(expected, lognid, cl_act, cl_act_log, where, inside_own):
+        mon.trace.append((label, "clean-up", where))
+        mon.cleanups.append((label, mon.phase, inside_own, expected is not mon.collector_action, nested))
+        mon.probe(expected, "%s, clean-up code (%s) run while %s" % (label, where, mon.phase))
+        mon.log(lognid, expected)
+        if cl_act is not None:
+            # the clean-up code starts an action of its own: a child of the generator's current action
+            with (start_action(action_type="gen:cleanup", nid=cl_act) if mon.decorated else _Null()) as ca:
+                mon.note_action(ca, cl_act, expected)
+                mon.probe(ca, "%s, inside the action started by its clean-up code (%s) run while %s" % (label, where, mon.phase))
+                mon.log(cl_act_log, ca)
+            mon.probe(expected, "%s, after the action started by its clean-up code (%s) run while %s" % (label, where, mon.phase))
+
+    def innermost(stack, box, keep):
+        nst = sp["nested"]
+        if nst is None:
+            while True:
+                got = yield ("susp", label)
+                mon.trace.append((label, "resumed"))
+                mon.probe(stack[-1], "%s after resuming" % label)
+                if got is not None:
+                    keep.append(got)  # a generator object (itself or another one) kept in this generator's frame
+        subf = gc_make_genfunc(nst["spec"], mon, label + ".sub", True, nested=True)
+        subf._shadow_base = stack[-1]  # a nested decorated generator starts from this generator's current action
+        if nst["how"] == "yield_from":
+            yield from subf(box)
+        else:
+            it = subf(box)
+            for item in it:
+                mon.probe(stack[-1], "%s after resuming a nested generator" % label)
+                got = yield item
+                mon.probe(stack[-1], "%s after resuming" % label)
+                if got is not None:
+                    keep.append(got)
+            # `it` is never closed by hand: it is abandoned together with this generator
+
+    def run_levels(i, stack, box, keep):
+        if i == len(sp["levels"]):
+            yield from innermost(stack, box, keep)
+            return
+        lv = sp["levels"][i]
+        parent = stack[-1]
+        with (start_action(action_type="gen:own", nid=lv["nid"]) if mon.decorated else _Null()) as a:
+            mon.note_action(a, lv["nid"], parent)
+            stack.append(a)
+            try:
+                try:
+                    mon.probe(a, "%s inside action %s" % (label, lv["nid"]))
+                    if lv["pre_yield"]:
+                        got = yield ("pre", label, lv["nid"])
+                        mon.probe(a, "%s after resuming inside action %s" % (label, lv["nid"]))
+                        if got is not None:
+                            keep.append(got)
+                    yield from run_levels(i + 1, stack, box, keep)
+                except GeneratorExit:
+                    if lv["cleanup"] in ("except_ge", "both"):
+                        cleanup(a, lv["log"], None, None, "except GeneratorExit inside own action %s" % lv["nid"], True)
+                    raise
+                finally:
+                    if lv["cleanup"] in ("finally", "both"):
+                        cleanup(a, lv["log2"], lv["cl_act"], lv["cl_act_log"], "finally inside own action %s" % lv["nid"], True)
+                    if sp["raises"] and i == 0:
+                        raise excs.UserError("clean-up of %s failed" % label)
+            finally:
+                stack.pop()
+        mon.probe(stack[-1], "%s after leaving action %s" % (label, lv["nid"]))
+
+    def body(box=None):
+        base = current_action()
+        if mon.decorated:
+            exp = getattr(body, "_expected_base", "unset")
+            if exp != "unset" and base is not exp:
+                mon.problems.append("%s: at first resumption current_action() is nid %r, the driver's action was nid %r" % (label, mon.nid_of(base), mon.nid_of(exp)))
+        stack = [base]
+        keep = []
+        outer = sp["outer"]
+        try:
+            for j in range(sp["early"]):
+                got = yield ("early", label, j)
+                mon.probe(base, "%s after resuming from an early yield" % label)
+                if got is not None:
+                    keep.append(got)
+            yield from run_levels(0, stack, box, keep)
+        except GeneratorExit:
+            if outer is not None and outer["how"] != "finally":
+                cleanup(base, outer["log"], outer["cl_act"], outer["cl_act_log"], "except GeneratorExit outside its own actions", False)
+                if outer["how"] == "except_ge_return":
+                    return ("r", label)
+            raise
+        finally:
+            if outer is not None and outer["how"] == "finally":
+                cleanup(base, outer["log"], outer["cl_act"], outer["cl_act_log"], "finally outside its own actions", False)
+                if sp["raises"] and not sp["levels"]:
+                    raise excs.UserError("clean-up of %s failed" % label)
+
+    if decorated and mon.decorated:
+        kind = sum(map(ord, label)) % 4
+        if kind == 1:
+            import functools
+
+            @functools.wraps(body)
+            def target(*a, **kw):
+                return body(*a, **kw)
+        elif kind == 2:
+            class _Factory(object):
+                def __call__(self, box=None):
+                    return body(box)
+            target = _Factory()
+        elif kind == 3:
+            target = lambda box=None: body(box)  # noqa: E731
+        else:
+            target = body
+        wrapped = eliot_friendly_generator_function(target)
+
+        def starter(box=None):
+            body._expected_base = getattr(starter, "_shadow_base", "unset")
+            return wrapped(box)
+        starter._body = body
+        return starter
+
+    def plain(box=None):
+        return body(box)
+    plain._body = body
+    return plain
+
+
+def gc_make_collector(mon):
+    """A (decorated) generator whose body, inside an action of its own, runs the collections it is asked for."""
+
+    def body():
+        base = current_action()
+        with (start_action(action_type="gen:collector", nid=900) if mon.decorated else _Null()) as a:
+            mon.note_action(a, 900, base)
+            k = yield "ready"
+            while True:
+                mon.probe(a, "collector generator before gc.collect()")
+                outer_collector = mon.collector_action
+                mon.collector_action = a if mon.decorated else None
+                try:
+                    gc.collect(k)
+                finally:
+                    mon.collector_action = outer_collector
+                mon.collector_probes += 1
+                mon.probe(a, "collector generator: after gc.collect() finalised abandoned generators from inside its body")
+                mon.log(mon.fresh(), a)
+                k = yield "collected"
+
+    return eliot_friendly_generator_function(body) if mon.decorated else body
+
+
+def gc_scenario(rng):
+    ids = IdGen()
+    ring = rng.random() < 0.15
+    ngen = rng.choice([2, 2, 3]) if ring else rng.choice([1, 1, 2, 3])
+    ctx = lambda: rng.choice([None, 0, 1, 2])  # noqa: E731
+    gens, seqs = [], []
+    for gi in range(ngen):
+        cyc = "ring" if ring else rng.choice(GC_CYCLES[:-1])
+        order = rng.choice(["cycle_first", "gen_first", "between"])
+        gens.append({"body": gc_body_spec(rng, ids), "cycle": cyc, "order": order})
+        nexts = [{"op": "next", "g": gi, "ctx": ctx(), "thread": rng.random() < 0.12} for _ in range(rng.randint(1, 4))]
+        create = {"op": "create", "g": gi, "ctx": rng.choice([None, None, 0, 1, 2])}
+        mk = {"op": "mkcycle", "g": gi}
+        if cyc == "sent_self":
+            seq = [create, nexts[0], {"op": "send", "g": gi, "other": gi, "ctx": ctx()}] + nexts[1:]
+        elif cyc == "ring":
+            seq = [create] + nexts
+        elif order == "cycle_first":
+            seq = [mk, create] + nexts
+        elif order == "gen_first":
+            seq = [create] + nexts + [mk]
+        else:
+            seq = [create, mk] + nexts
+        seqs.append(seq)
+    steps = []
+    live = [s for s in seqs if s]
+    while live:
+        s = rng.choice(live)
+        steps.append(s.pop(0))
+        if not s:
+            live.remove(s)
+    if ring:
+        for gi in range(ngen):
+            steps.append({"op": "send", "g": gi, "other": (gi + 1) % ngen, "ctx": ctx()})
+        for gi in range(ngen):
+            if rng.random() < 0.4:
+                steps.append({"op": "next", "g": gi, "ctx": ctx(), "thread": False})
+    if rng.random() < 0.35:
+        for _ in range(rng.choice([1, 1, 2])):
+            # a collection while everything is still referenced: the objects allocated so far move to an older generation
+            promote = {"op": "promote", "gen": rng.choice([0, 1, 2]), "ctx": ctx()}
+            if ENABLE_GCCYCLE_PROMOTE_EARLY:
+                steps.insert(rng.randint(0, len(steps)), promote)
+            else:
+                steps.append(promote)  # after the last resumption: every generator's objects change generation together
+    if rng.random() < 0.25:
+        steps.insert(rng.randint(0, len(steps)), {"op": "finish_ctx", "ctx": rng.choice([0, 1, 2])})
+    order = list(range(ngen))
+    rng.shuffle(order)
+    collect = lambda: {"op": "collect", "gen": rng.choice([0, 1, 2, 2]), "via": rng.choice(["direct", "direct", "gen"]), "ctx": ctx(),  # noqa: E731
+                       "thread": rng.random() < 0.15}
+    for j, gi in enumerate(order):
+        steps.append({"op": "drop", "g": gi, "ctx": ctx()})
+        if j + 1 < len(order) and rng.random() < 0.3:
+            steps.append(collect())
+    if rng.random() < 0.2:
+        steps.append({"op": "finish_ctx", "ctx": rng.choice([0, 1, 2])})
+    for _ in range(rng.choice([1, 1, 2])):
+        steps.append(collect())
+    steps.append({"op": "collect", "gen": 2, "via": "direct", "ctx": ctx(), "thread": False})
+    return {"gens": gens, "steps": steps, "collector_ctx": ctx()}
+
+
+def gc_execute(sc, decorated):
+    mon = GcMon(decorated)
+    unraisable = []
+
+    def hook(u):
+        # strings only: holding the exception would hold the frames being finalised
+        unraisable.append((type(u.exc_value).__name__, str(u.exc_value)[:80]))
+
+    old_hook = sys.unraisablehook
+    sys.unraisablehook = hook
+    gc.collect()  # what earlier scenarios left behind goes now; everything allocated from here on is in the youngest generation
+    try:
+        drv = []
+        for j in range(3):
+            a = start_action(action_type="driver", nid=1000 + j)
+            mon.keep.append(a)
+            mon.action_nid[id(a)] = 1000 + j
+            drv.append(a)
+        finished = set()
+        funcs = [gc_make_genfunc(g["body"], mon, "g%d" % gi, True) for gi, g in enumerate(sc["gens"])]
+        refs = {}   # gi -> the generator object: the only outside reference to it
+        roots = {}  # gi -> outside reference to the cycle that will own it
+        boxes = {}
+        started = set()
+        attached = set()
+
+        def in_ctx(where, fn, thread=False):
+            if thread:
+                target = fn if where is None else (lambda: drv[where].run(fn))
+                t = threading.Thread(target=target)
+                t.start()
+                t.join()
+            elif where is None:
+                fn()
+            else:
+                drv[where].run(fn)
+
+        cwhere = sc["collector_ctx"]
+        holder = []
+        in_ctx(cwhere, lambda: holder.append(gc_make_collector(mon)()))
+        col = holder.pop()
+        in_ctx(cwhere, lambda: next(col))
+
+        def attach(gi):
+            """Make the generator reachable from its cycle once both exist."""
+            if gi in attached or gi not in refs:
+                return
+            kind = sc["gens"][gi]["cycle"]
+            if kind == "arg_box":
+                if gi in boxes and boxes[gi].get("ready"):
+                    boxes[gi]["box"].append(refs[gi])
+                    attached.add(gi)
+                return
+            if gi not in roots:
+                return
+            r = roots[gi]
+            if kind in ("holder_self", "holder_del"):
+                r.gen = refs[gi]
+            elif kind == "list_self":
+                r.append(refs[gi])
+            elif kind == "dict_self":
+                r["gen"] = refs[gi]
+            elif kind == "pair":
+                r.other.gen = refs[gi]
+            elif kind == "closure":
+                r().append(refs[gi])
+            attached.add(gi)
+
+        def mkcycle(gi):
+            kind = sc["gens"][gi]["cycle"]
+            if kind == "holder_self":
+                r = _Holder()
+                r.me = r
+            elif kind == "holder_del":
+                r = _ClosingHolder()
+                r.me = r
+            elif kind == "list_self":
+                r = []
+                r.append(r)
+            elif kind == "dict_self":
+                r = {}
+                r["me"] = r
+            elif kind == "pair":
+                r, b = _Holder(), _Holder()
+                r.other = b
+                b.other = r
+            elif kind == "closure":
+                cell = []
+
+                def r():
+                    return cell
+                cell.append(r)
+            elif kind == "arg_box":
+                boxes.setdefault(gi, {"box": []})["ready"] = True
+                attach(gi)
+                return
+            else:
+                return
+            roots[gi] = r
+            attach(gi)
+
+        def create(gi):
+            box = None
+            if sc["gens"][gi]["cycle"] == "arg_box":
+                box = boxes.setdefault(gi, {"box": []})["box"]
+            refs[gi] = funcs[gi](box)
+            attach(gi)
+
+        def resume(st):
+            gi = st["g"]
+            before = current_action()
+            if gi not in started:
+                funcs[gi]._body._expected_base = before
+                started.add(gi)
+            try:
+                if st["op"] == "next":
+                    out = next(refs[gi])
+                else:
+                    out = refs[gi].send(refs[st["other"]])
+                ev = ("yielded", out)
+            except StopIteration as e:
+                ev = ("stop", e.value)
+            except BaseException as e:
+                ev = ("raised", type(e).__name__, str(e)[:60])
+            mon.trace.append(("g%d" % gi, "driver", st["op"], ev))
+            mon.probes += 1
+            if decorated and current_action() is not before:
+                mon.problems.append("driver: after %s on g%d current_action() is nid %r, it was nid %r" % (st["op"], gi, mon.nid_of(current_action()), mon.nid_of(before)))
+
+        def collect(st, phase):
+            before = current_action()
+            mon.drvlog(st["ctx"])
+            mon.phase = phase
+            mon.collector_action = before if decorated else None
+            try:
+                if st.get("via") == "gen":
+                    col.send(st["gen"])
+                else:
+                    gc.collect(st["gen"])
+            finally:
+                mon.phase = "run"
+                mon.collector_action = None
+            mon.collector_probes += 1
+            if decorated and current_action() is not before:
+                mon.problems.append("collector: after gc.collect(%d)%s finalised abandoned generators current_action() is nid %r, it was nid %r" % (
+                    st["gen"], " (called in the body of another decorated generator)" if st.get("via") == "gen" else "",
+                    mon.nid_of(current_action()), mon.nid_of(before)))
+            mon.drvlog(st["ctx"])
+
+        def drop(gi):
+            mon.phase = "the last outside reference was being dropped"
+            try:
+                refs.pop(gi, None)
+                roots.pop(gi, None)
+                boxes.pop(gi, None)
+            finally:
+                mon.phase = "run"
+
+        ncollect = 0
+        for st in sc["steps"]:
+            op = st["op"]
+            if op == "finish_ctx":
+                if st["ctx"] not in finished:
+                    finished.add(st["ctx"])
+                    drv[st["ctx"]].finish()
+            elif op == "mkcycle":
+                mkcycle(st["g"])
+            elif op == "create":
+                in_ctx(st["ctx"], lambda: create(st["g"]))
+            elif op in ("next", "send"):
+                in_ctx(st["ctx"], lambda: resume(st), st.get("thread"))
+            elif op == "promote":
+                in_ctx(st["ctx"], lambda: collect(st, "a collection ran while the generator was still referenced"))
+            elif op == "drop":
+                in_ctx(st["ctx"], lambda: drop(st["g"]))
+            elif op == "collect":
+                ncollect += 1
+                where = "no action" if st["ctx"] is None else "driver action nid %d" % (1000 + st["ctx"])
+                in_ctx(st["ctx"], lambda: collect(st, "gc.collect(%d) #%d ran under %s%s%s" % (
+                    st["gen"], ncollect, where, " on another thread" if st.get("thread") else "",
+                    " in the body of another decorated generator" if st.get("via") == "gen" else "")), st.get("thread"))
+        in_ctx(cwhere, col.close)
+        for j, a in enumerate(drv):
+            if j not in finished:
+                a.finish()
+    finally:
+        sys.unraisablehook = old_hook
+    mon.unraisable = unraisable
+    return mon
+
+
+def gc_check_tape(msgs, mon, problems):
+    where = {}
+    starts, ends = {}, {}
+    for m in msgs:
+        key = (m["task_uuid"], tuple(m["task_level"][:-1]))
+        status = m.get("action_status")
+        nid = m.get("nid")
+        if status == "started":
+            starts[key] = nid
+            if nid is not None:
+                where[nid] = (m["task_uuid"], m["task_level"][:-1], "action")
+        elif status in ("succeeded", "failed"):
+            ends[key] = ends.get(key, 0) + 1
+        elif nid is not None:
+            where[nid] = (m["task_uuid"], m["task_level"], "message")
+        elif "dnid" not in m:
+            problems.append("a message nobody planned was logged: %r" % ({k: m[k] for k in list(m)[:8]},))
+    for key, n in ends.items():
+        if key not in starts:
+            problems.append("an end message at %s%s belongs to no started action" % (key[0][:6], list(key[1])))
+    for key, nid in starts.items():
+        n = ends.get(key, 0)
+        if n != 1:
+            problems.append("action nid %s has %d end messages under its own parent after every abandoned generator was finalised (exactly one expected)" % (nid, n))
+    # every in-generator action / message under its shadow parent (the generator's own context), wherever the collector ran
+    for nid, parent in mon.parent_of.items():
+        if nid not in where:
+            problems.append("node %s was executed but is not on the tape" % nid)
+            continue
+        uuid, lvl, kind = where[nid]
+        own_parent_level = lvl[:-1]
+        if parent is None:
+            if own_parent_level != [] and not (kind == "message" and lvl == [1]):
+                problems.append("node %s ran with no current action in its generator's context but was logged at %s%s" % (nid, uuid[:6], lvl))
+            elif kind == "message" and any(uuid == w[0] for n2, w in where.items() if n2 != nid):
+                problems.append("node %s ran with no current action in its generator's context but was logged into the task of another node (%s%s)" % (nid, uuid[:6], lvl))
+        elif parent == "?":
+            pass
+        else:
+            if parent not in where:
+                problems.append("parent %s of node %s is not on the tape" % (parent, nid))
+                continue
+            puuid, plvl, _ = where[parent]
+            if uuid != puuid or own_parent_level != plvl:
+                problems.append("node %s was logged under %s%s, its generator's own context is action nid %s at %s%s" % (nid, uuid[:6], own_parent_level, parent, puuid[:6], plvl))
+    # what the driver logged around each collection sits directly under the driver's action
+    for m in msgs:
+        if "dnid" not in m:
+            continue
+        w = mon.drv_msgs.get(m["dnid"], "?")
+        if w == "?":
+            problems.append("driver message %r was never logged by the driver" % m["dnid"])
+        elif w is None:
+            if m["task_level"] != [1] or any(m["task_uuid"] == x[0] for x in where.values()):
+                problems.append("a message the collector logged under no action sits at %s%s" % (m["task_uuid"][:6], m["task_level"]))
+        else:
+            puuid, plvl, _ = where[1000 + w]
+            if m["task_uuid"] != puuid or m["task_level"][:-1] != plvl:
+                problems.append("a message the collector logged under driver action nid %d sits at %s%s" % (1000 + w, m["task_uuid"][:6], m["task_level"]))
+
+
+def gc_one(seed, i, res):
+    rng = random.Random("%s:C15:gccycle:%d" % (seed, i))
+    sc = gc_scenario(rng)
+    tape = Tape()
+    rec = Recorder(tape, "rec")
+    add_destinations(rec)
+    try:
+        mon_u = gc_execute(sc, False)
+        mark = len(tape.entries)
+        mon_d = gc_execute(sc, True)
+    finally:
+        remove_destination(rec)
+    problems = list(mon_d.problems)
+    # ---- transparency: per generator body the same events (which clean-up code ran, what the driver got), the same unraisable reports
+    labels = sorted(set(ev[0] for ev in mon_u.trace) | set(ev[0] for ev in mon_d.trace))
+    for lab in labels:
+        tu = [ev for ev in mon_u.trace if ev[0] == lab]
+        td = [ev for ev in mon_d.trace if ev[0] == lab]
+        if tu != td:
+            j = next((k for k in range(min(len(tu), len(td))) if tu[k] != td[k]), min(len(tu), len(td)))
+            problems.append("decorated generator %s abandoned in a reference cycle is not transparent: after the final collection its event %d is %r, undecorated gives %r" % (
+                lab, j, td[j] if j < len(td) else None, tu[j] if j < len(tu) else None))
+    if sorted(mon_u.unraisable) != sorted(mon_d.unraisable):
+        problems.append("'Exception ignored in' reports (sys.unraisablehook) while abandoned decorated generators were finalised: %r; with undecorated generators: %r" % (
+            sorted(mon_d.unraisable)[:4], sorted(mon_u.unraisable)[:4]))
+    msgs = [e["m"] for e in tape.entries[mark:] if e["k"] == "msg"]
+    gc_check_tape(msgs, mon_d, problems)
+    res["evals"] += 1
+    c = res["counters"]
+
+    def bump(name, n=1):
+        c[name] = c.get(name, 0) + n
+
+    bump("gc_scenarios")
+    bump("context_probes", mon_d.probes)
+    bump("gc_collector_probes", mon_d.collector_probes)
+    bump("gc_collects_from_generator_body", sum(1 for st in sc["steps"] if st["op"] == "collect" and st.get("via") == "gen"))
+    bump("gc_unraisable_reports_expected", len(mon_u.unraisable))
+    bump("gc_scenarios_with_promotion", 1 if any(st["op"] == "promote" for st in sc["steps"]) else 0)
+    during = 0
+    for label, phase, inside_own, foreign, nested in mon_d.cleanups:
+        if phase.startswith("gc.collect("):
+            during += 1
+            bump("gc_cleanups_during_collect")
+            if foreign:
+                bump("gc_cleanups_under_other_action")
+            if inside_own:
+                bump("gc_cleanups_inside_own_action")
+            if nested:
+                bump("gc_cleanups_nested_generator")
+            if "another thread" in phase:
+                bump("gc_cleanups_collect_on_thread")
+            d = c.setdefault("gc_cycle_kinds", {})
+            kind = sc["gens"][int(label.split(".")[0][1:])]["cycle"]
+            d[kind] = d.get(kind, 0) + 1
+        else:
+            # not finalised by the collector: the scenario failed to put the generator into a cycle (counted, never judged)
+            bump("gc_cleanups_outside_collect")
+    if during:
+        res["nontrivial"].append(h(["gccycle", sc]))
+    if res.get("sample") is None and i % GC_BATCH == 0:
+        res["sample"] = {"part": "gccycle", "scenario": sc, "clean-ups": [list(x) for x in mon_d.cleanups[:6]]}
+    if problems:
+        res["violations"].append({"msg": "part gccycle: " + problems[0], "mech": None,
+                                  "detail": {"case": i, "problems": problems[:6], "scenario": sc, "clean-ups": [list(x) for x in mon_d.cleanups[:8]]}})
+
+
+def gc_run_case(spec):
+    res = {"evals": 0, "nontrivial": [], "counters": {}, "violations": [], "sample": None, "sets": {"step_outcomes": []}}
+    gc.disable()  # the moment of every collection is chosen by the scenario
+    gc.collect()
+    gc.freeze()  # what exists already (modules, the harness) is set aside: the scenarios' collections examine only what they allocate
+    try:
+        for i in range(spec["lo"], spec["hi"]):
+            gc_one(spec["seed"], i, res)
+    finally:
+        gc.unfreeze()
+        gc.enable()
+    return res
+
+
 def run_case(spec):
-    import sys
+    if spec.get("part") == "gccycle":
+        return gc_run_case(spec)
     sys.unraisablehook = lambda *a: None  # abandoned generators finalised by the collector may raise; irrelevant here
     res = {"evals": 0, "nontrivial": [], "counters": {}, "violations": [], "sample": None, "sets": {"step_outcomes": []}}
     for i in range(spec["lo"], spec["hi"]):
@@ -555,4 +1217,12 @@ def finalize(agg, tier):
     need = {"yielded", "stop", "raised", "closed"}
     if not need <= set(agg["sets"].get("step_outcomes", {})):
         return "not every step outcome kind was observed"
+    if ENABLE_GCCYCLE:
+        scale = 1 if tier == "quick" else 10
+        for name, least in (("gc_cleanups_during_collect", 1500), ("gc_cleanups_under_other_action", 1000), ("gc_cleanups_inside_own_action", 500),
+                            ("gc_cleanups_nested_generator", 100), ("gc_collector_probes", 3000), ("gc_collects_from_generator_body", 100)):
+            if c.get(name, 0) < least * scale:
+                return "part gccycle: reach counter %s is %d (< %d)" % (name, c.get(name, 0), least * scale)
+        if not set(GC_CYCLES) <= set(c.get("gc_cycle_kinds", {})):
+            return "part gccycle: not every kind of reference cycle finalised a generator"
     return None
